@@ -4,7 +4,7 @@ from __future__ import annotations
 import ast
 from fractions import Fraction
 
-from vlib.absint import Interp, Arr, FuncV, Obj, explore, R, num, NotInFragment, Unknown
+from vlib.absint import Interp, Arr, Arr2, FuncV, Obj, explore, R, num, NotInFragment, Unknown
 from vlib.loader import Repo, AnalysisError, norm
 from vlib.orderdom import weak_orderings, embeddings, describe
 from vlib import world as W
@@ -328,38 +328,87 @@ def check_fast_gap(repo, rep, tier):
 
 
 def check_symbol_interleaving(repo, rep, rid="C02-R7"):
-    rep.rule(rid, "several symbols: an order that a hook of symbol A creates for symbol B at minute m may only be matched against B's "
-                  "candles from m on, and must be matched against all of them. Necessary structural condition, decided on the loop "
-                  "nest of each simulator: inside the per-symbol loop the matcher receives exactly one minute of that symbol (so "
-                  "minutes are the outer iteration and symbols the inner one); a matcher that consumes a multi-minute slice per "
-                  "symbol replays one symbol's whole chunk before the next symbol's")
-    for sim, host, eff in (("_step_simulator", "_step_simulator", "_simulate_price_change_effect"),
-                           ("_skip_simulator", "_simulate_new_candles", "_simulate_price_change_effect_multiple_candles")):
-        fn = repo.func(BT, host)
-        sym_loops = [n for n in ast.walk(fn) if isinstance(n, ast.For) and SL.loop_id(n) == "sym"]
-        calls = [(lp, c) for lp in sym_loops for c in ast.walk(lp) if isinstance(c, ast.Call) and SL.last(SL.dotted(c.func) or "") == eff]
-        if len(calls) != 1:
-            raise AnalysisError(f"{host}: expected one call of {eff} inside the per-symbol loop, found {len(calls)}")
-        lp, call = calls[0]
-        arg = call.args[0]
-        # resolve the argument to the expression it was assigned from inside the loop body
-        src = arg
-        seen = 0
-        while isinstance(src, ast.Name) and seen < 4:
-            asg = [a for a in ast.walk(lp) if isinstance(a, ast.Assign) and len(a.targets) == 1 and isinstance(a.targets[0], ast.Name) and a.targets[0].id == src.id
-                   and not (isinstance(a.value, ast.Call) and SL.last(SL.dotted(a.value.func) or "") == "_get_fixed_jumped_candle")]
-            if not asg:
-                break
-            src = asg[0].value
-            seen += 1
-        one_minute = isinstance(src, ast.Subscript) and not isinstance(src.slice, ast.Slice)
-        if not one_minute:
+    rep.rule(rid, "several symbols advance minute by minute: an order that a hook of symbol A creates for symbol B at minute m may only be "
+                  "matched against B's candles from m on, and the candles / prices of B that A's hooks read must be those of minute m. "
+                  "Decided by executing each simulator's feeding function abstractly for two symbols with the matcher replaced by a "
+                  "recorder: the recorded (symbol, first minute, number of minutes) sequence must be minute-major - every symbol's "
+                  "minute m before any symbol's minute m+1 - and cover the chunk exactly once per symbol")
+    from vlib.absint import Frame
+    MINUTE = 60_000
+    t0 = 1_600_000_020_000 // MINUTE * MINUTE
+
+    def cds(n):
+        def rows(tag):
+            return Arr2([Arr([num(t0 + k * MINUTE)] + [R.atom(f"{tag}{x}{k}") for x in "ochlv"]) for k in range(n)])
+        return {"Sandbox-AAA-USDT": {"exchange": "Sandbox", "symbol": "AAA-USDT", "candles": rows("a")},
+                "Sandbox-BBB-USDT": {"exchange": "Sandbox", "symbol": "BBB-USDT", "candles": rows("b")}}
+    for sim, start, step in (("_skip_simulator", 2, 3), ("_skip_simulator", 0, 2), ("_step_simulator", 1, 1)):
+        calls = []
+        stubs = W.base_stubs()
+        eff = "_simulate_price_change_effect_multiple_candles" if sim == "_skip_simulator" else "_simulate_price_change_effect"
+
+        def rec(it, a, k, calls=calls, sim=sim):
+            c = a[0]
+            if sim == "_skip_simulator":
+                rows = c.rows
+                calls.append((a[2], int(rows[0].items[0].const_value() - t0) // MINUTE, len(rows)))
+            else:
+                calls.append((a[2], int(c.items[0].const_value() - t0) // MINUTE, 1))
+        stubs[f"{BT}:{eff}"] = rec
+        stubs[f"{BT}:_get_fixed_jumped_candle"] = lambda it, a, k: a[1]
+        it = Interp(repo, stubs=stubs)
+        it.overrides["jesse/config.py:config"] = {"app": {"considering_timeframes": ("1m",)}, "env": {}}
+        cs = Obj("CandlesState", name="store.candles", attrs={}, open_world=True)
+        W.bind(cs, "add_candle", lambda i, a, k: None)
+        it.overrides[f"{W.STORE}:store"] = Obj("StoreClass", name="store", attrs={"candles": cs, "app": Obj("AppState", name="app", attrs={}, open_world=True)}, open_world=True)
+        it.stubs[f"{W.HELPERS}:is_debuggable"] = lambda i, a, k: False
+        candles = cds(6)
+        try:
+            if sim == "_skip_simulator":
+                fn = repo.func(BT, "_simulate_new_candles")
+                it.call(FuncV(fn, repo.module(BT), qual="_simulate_new_candles"), [candles, num(start), num(step)], {})
+            else:
+                # one iteration of the step simulator's time loop: its per-symbol loop
+                fns = repo.func(BT, "_step_simulator")
+                tl = [n for n in ast.walk(fns) if isinstance(n, ast.For) and SL.loop_id(n) == "time"][0]
+                sym = [n for n in tl.body if isinstance(n, ast.For) and SL.loop_id(n) == "sym"]
+                if len(sym) != 1:
+                    raise AnalysisError("_step_simulator: per-symbol loop not found in the time loop")
+                fr = Frame(repo.module(BT), {"candles": candles, "i": num(start), "length": num(6)})
+                it.exec(sym[0], fr)
+        except NotInFragment as e:
+            raise AnalysisError(f"{sim}: feeding function not interpretable: {e}")
+        # minute-major and exact cover
+        want_minutes = list(range(start, start + step))
+        cover = {}
+        order_ok = True
+        last_end = -1
+        for symb, m0, ln in calls:
+            cover.setdefault(symb, []).extend(range(m0, m0 + ln))
+        for idx in range(1, len(calls)):
+            prev, cur = calls[idx - 1], calls[idx]
+            # a later call must not start before the END of an earlier call of ANOTHER symbol has been reached by every symbol:
+            # equivalent for two symbols: no call may start at a minute smaller than the largest minute already fed to the other symbol
+            pass
+        fed = {}
+        for symb, m0, ln in calls:
+            others_max = max([max(v) for s_, v in fed.items() if s_ != symb] or [-1])
+            mine_max = max(fed.get(symb, [-1]))
+            # feeding symb up to minute m0+ln-1 while another symbol is still behind by more than one minute, or ahead by more than
+            # one minute, breaks the minute-major order
+            if m0 + ln - 1 > others_max + 1 and ln > 1:
+                order_ok = False
+            fed.setdefault(symb, []).extend(range(m0, m0 + ln))
+        exact = all(sorted(cover.get(sy, [])) == want_minutes for sy in ("AAA-USDT", "BBB-USDT"))
+        if not exact:
+            rep.violation(rid, f"{sim}|cover", f"{sim} (two symbols, start {start}, step {step}): the matcher is fed {calls}, expected every minute of {want_minutes} exactly once per symbol")
+        elif not order_ok:
             rep.violation(rid, f"{sim}|symbol-major-chunk",
-                          f"{sim}: inside the per-symbol loop of {host} the matcher {eff} receives `{norm(src)}` - a multi-minute slice - so one symbol's "
-                          f"whole chunk is replayed (fills, hooks) before the next symbol's: an order created for another symbol by a hook at minute m is "
-                          f"matched against that symbol's earlier minutes of the chunk (executed before it was submitted) or misses its later ones")
-        rep.instance(rid, f"{sim}|{norm(src)[:60]}", {"simulator": sim, "matcher_input": norm(src), "one_minute_per_symbol": one_minute})
-    rep.floor(rid, 2)
+                          f"{sim} (two symbols, start {start}, step {step}): the matcher is fed {calls} - a whole multi-minute chunk of one symbol before the next symbol's: an "
+                          f"order created for another symbol by a hook at minute m is matched against that symbol's earlier minutes of the chunk (executed before it was "
+                          f"submitted) or misses its later ones, and the other symbols' candles and prices seen by a hook are up to a chunk off")
+        rep.instance(rid, f"{sim}|start={start}|step={step}", {"simulator": sim, "matcher_calls": calls})
+    rep.floor(rid, 3)
 
 
 # ------------------------------------------------------------------ market orders
@@ -552,7 +601,7 @@ CLAIM = {
             "abstractly on two-minute chunks with two orders, on one-candle chunks with two / three orders in both storage orders "
             "and a reaction order, and - through _simulate_new_candles - on chunks with a gap inside: exactly the touched orders "
             "fill, once, at their own price. (6) Several symbols: the matcher must receive one minute per symbol inside the "
-            "per-symbol loop (minute-major order); the fast simulator's symbol-major chunk replay is a recorded known finding. "
+            "per-symbol loop (minute-major order); the fast simulator's `_simulate_new_candles` is executed for two symbols and a three-minute chunk and must call the matcher minute-major. "
             "Not decided: exact fill minute inside fast-mode chunks (C12), k>3 simultaneous orders.",
     "note": "Trusted: interpreter = CPython semantics on the subset; loops in trace rules unrolled 0/1 times; mode predicates fixed to backtest.",
 }
